@@ -369,3 +369,15 @@ def rule_L5(ctx, rid='L5'):
            'equal weights are rebuilt with one entry per repeated row' if ok else
            'weights are not rebuilt to the resampled length')
     return tr, by_src
+
+
+def rule_L1d_transition(ctx, rid='L1d'):
+    """The exploration boundaries are recorded after the last removal of an empty shell."""
+    from .lockstep import rule_derived
+    ctx.rule(rid, 'transition-time members: shell_n_sample_exp / shell_end_exp are recorded '
+             'after the last removal of an empty shell on every path (or are reduced in '
+             'lockstep with the shell records)')
+    run_f = ctx.program.func('Sampler.run')
+    tr = SamplerTracker(run_f, G_SHELL.members + ['shell_n_sample_exp', 'shell_end_exp'])
+    rule_derived(ctx, rid, run_f, 'shell_n_sample', 'shell_n_sample_exp', tr)
+    rule_derived(ctx, rid, run_f, 'points', 'shell_end_exp', tr)
